@@ -1,4 +1,6 @@
 import SaModel.Lemmas.C11PhysScalar
+import SaModel.Lemmas.C01ObsRows
+import SaModel.Lemmas.C01ObsPush
 /-
 C11, physical equality: the non-recursive combinators around sequences (list, fixed-size list, binary, binary view,
 fixed-size binary builders) and union rows, with the recursive parts as hypotheses.
@@ -8,13 +10,13 @@ open SaModel SaModel.Spec
 
 /-- what the induction hypothesis for `pushElems` provides -/
 def ElemsPhys (ext : Ext) (un : Bytes → String) (xs : SVals) (pe : Bool → B → List Int → R (B × List Int)) : Prop :=
-  ∀ large el offs r cdt cn cmd ls, WFB el → Safe el → Shape el cdt cn cmd → pe large el offs = .ok r →
+  ∀ large el offs r cdt cn cmd ls, WFH el → NoDictKey el → Shape el cdt cn cmd → pe large el offs = .ok r →
     interpAll ext cdt cn cmd xs = .ok ls →
     pushLs un (LVals.ofList ls) (erase el) = erase r.1 ∧ ∀ base l, offs = base ++ [l] → r.2 = base ++ [l + (ls.length : Int)]
 
 /-- what the induction hypothesis for `pushCountElems` provides -/
 def CountPhys (ext : Ext) (un : Bytes → String) (xs : SVals) (pc : B → Nat → R (B × Nat)) : Prop :=
-  ∀ el c r cdt cn cmd ls, WFB el → Safe el → Shape el cdt cn cmd → pc el c = .ok r →
+  ∀ el c r cdt cn cmd ls, WFH el → NoDictKey el → Shape el cdt cn cmd → pc el c = .ok r →
     interpAll ext cdt cn cmd xs = .ok ls →
     pushLs un (LVals.ofList ls) (erase el) = erase r.1 ∧ r.2 = c + ls.length
 
@@ -23,7 +25,7 @@ theorem seqLike_phys {ext : Ext} {un : Bytes → String} {xs : SVals} {pe : Bool
     {pc : B → Nat → R (B × Nat)} {pt : SS → R SS}
     (hpe : ElemsPhys ext un xs pe) (hpc : CountPhys ext un xs pc)
     (b : B) (k : SeqKind) (b' : B) (dt : DataType) (n : Bool) (md : Metadata) (lv : LVal)
-    (hwf : WFB b) (hsafe : Safe b) (hshape : Shape b dt n md)
+    (hwf : WFH b) (hsafe : NoDictKey b) (hshape : Shape b dt n md)
     (hns : ∀ p len v fs c nx sn, b ≠ .struct p len v fs c nx sn)
     (h : seqLikeWith pe pc pt (u8All xs) b k = .ok b') (hi : seqSpec ext (k != .seq) dt md xs = .ok lv) :
     pushL un lv (erase b) = erase b' := by
@@ -34,8 +36,8 @@ theorem seqLike_phys {ext : Ext} {un : Bytes → String} {xs : SVals} {pe : Bool
     obtain ⟨o1, h2, h⟩ := (bind_ok _ _ _).1 h
     obtain ⟨⟨el', o2⟩, h3, h⟩ := (bind_ok _ _ _).1 h
     cases h
-    simp only [WFB] at hwf
-    simp only [Safe] at hsafe
+    simp only [WFH] at hwf
+    simp only [NoDictKey] at hsafe
     have hv := setValidity_setV h1
     subst hv
     obtain ⟨l, hl, rfl⟩ := duplicateLast_ok h2
@@ -59,8 +61,8 @@ theorem seqLike_phys {ext : Ext} {un : Bytes → String} {xs : SVals} {pe : Bool
     · simp [fail] at h
     · rename_i hcnt
       cases h
-      simp only [WFB] at hwf
-      simp only [Safe] at hsafe
+      simp only [WFH] at hwf
+      simp only [NoDictKey] at hsafe
       have hv := setValidity_setV h1
       subst hv
       simp only [Shape] at hshape
@@ -69,7 +71,7 @@ theorem seqLike_phys {ext : Ext} {un : Bytes → String} {xs : SVals} {pe : Bool
       obtain ⟨ls, hls, hi⟩ := (bind_ok _ _ _).1 hi
       split at hi
       · cases hi
-        obtain ⟨he, hc⟩ := hpc _ _ _ _ _ _ _ hwf.2.2 hsafe.1 hsel h3 hls
+        obtain ⟨he, hc⟩ := hpc _ _ _ _ _ _ _ hwf.2.2 hsafe hsel h3 hls
         simp only at he hc
         have hn : cnt = kk := by simpa using hcnt
         subst hn
